@@ -125,6 +125,7 @@ def run_stdio_script(steps: List[Any], *, chunks: Optional[List[Any]] = None,
                 out["notes"] = out["notes"][:n_notes_before]
                 out["batching_info"] = client.get_batching_info()
                 out["stdin_before_exit"] = proc.stdin_bytes()
+                out["proc_events_before_exit"] = list(proc.events)
                 d1.cancel()
                 d2.cancel()
             out["stdin"] = patch.spawned[0].stdin_bytes()
